@@ -655,8 +655,9 @@ class LocMotor(ReadMotor):
     """Locatable"""
 
     def locate(self):
+        # the readback differs from the setpoint (following error): the wrappers must work from the SETPOINT
         x = self.world.pos[self.no]
-        return {"setpoint": x, "readback": x}
+        return {"setpoint": x, "readback": x + 7}
 
 
 class HintedMotor(ReadMotor):
@@ -765,7 +766,7 @@ class World:
             return r, V("", {"self": 1, "status": 2, "tree": 3}[self.cfg.get("style", "self")])
         if c == "locate":
             x = self.pos[last.obj.no]
-            return {"setpoint": x, "readback": x}, V("", x)
+            return {"setpoint": x, "readback": x + 7}, V("", x)
         if c == "read" and last.obj is not None and last.obj.no in self.pos:
             x = self.pos[last.obj.no]
             return {last.obj.name: {"value": x, "timestamp": 0.0}}, V("", x)
